@@ -34,7 +34,7 @@ with open(os.path.join(HERE, "seeded", "README.md"), "w", encoding="utf8") as f:
 p = os.path.join(HERE, "DESIGN.md")
 s = open(p, encoding="utf8").read()
 if "<!-- SEEDED-TABLE -->" in s:
-    s = re.sub(r"<!-- SEEDED-TABLE -->.*<!-- /SEEDED-TABLE -->", "<!-- SEEDED-TABLE -->\n" + table + "\n<!-- /SEEDED-TABLE -->", s, flags=re.S)
+    s = re.sub(r"<!-- SEEDED-TABLE -->.*<!-- /SEEDED-TABLE -->", lambda m: "<!-- SEEDED-TABLE -->\n" + table + "\n<!-- /SEEDED-TABLE -->", s, flags=re.S)
     open(p, "w", encoding="utf8").write(s)
 n_c = sum(1 for r in rows if r[4])
 print("%d seeds, %d caught by at least one check, %d valid" % (len(rows), n_c, sum(1 for r in rows if r[6])))
